@@ -53,6 +53,16 @@ def rand_defined_payload(rng, identity=None, **kw):
         identity = rng.choice(_IDS)
     kw.setdefault("vstrat", rng.choice(("random", "mixed", "ones", "zero")))
     kw.setdefault("cstrat", rng.choice(("small", "small", "one", "random")))
+    if "tabs" not in kw and rng.random() < 0.4:
+        # laid out from the PINNED field layouts (vf.stdlayout) instead of the repository's tables read as data: a
+        # well-formed message of the standard stays well-formed for the generator even if a table entry was changed
+        from vf import stdlayout
+
+        if identity in stdlayout.LAYOUT:
+            try:
+                return refmodel.build(identity, rng, tabs=(stdlayout.LAYOUT, stdlayout.F), **kw).payload
+            except Exception:
+                pass
     for _ in range(20):
         try:
             return refmodel.build(identity, rng, **kw).payload
@@ -72,8 +82,15 @@ def rand_frame(rng, kind=None):
     """Returns (frame, payload, kind). Kinds cover implemented, unknown, boundary lengths."""
     if kind is None:
         kind = rng.choice(("defined", "defined", "defined", "unknown", "len0", "len1", "len2",
-                           "len255", "len256", "len1022", "len1023", "defmax"))
-    if kind == "defined":
+                           "len255", "len256", "len1022", "len1023", "defmax", "steered"))
+    if kind == "steered":
+        # a valid frame whose CHECKSUM BYTES have a chosen value (zeros, ones, CR LF, sync bytes, '%', quotes ...): the
+        # last three payload bytes (padding behind the last field / unknown-type content) steer the CRC
+        base = rand_defined_payload(rng) if rng.random() < 0.5 else rand_unknown_payload(rng, rng.randint(2, 60))
+        if len(base) > 1020:
+            base = rand_unknown_payload(rng, 20)
+        p = steer_payload(base, rng.choice(STEER_TARGETS))
+    elif kind == "defined":
         p = rand_defined_payload(rng)
     elif kind == "defmax":
         p = rand_defined_payload(rng, cstrat="max", vstrat="random")
@@ -300,3 +317,47 @@ def as_rep(kind, b):
 
 def pick_rep(rng, p_bytes=0.6):
     return "bytes" if rng.random() < p_bytes else rng.choice(REPS[1:])
+
+
+# ------------------------------------------------------------------ CRC steering
+_STEER = {}
+
+
+def steer_payload(prefix: bytes, target: int) -> bytes:
+    """prefix + 3 bytes chosen so that the CRC-24Q trailer of the FRAME carrying that payload equals `target`
+    (CRC-24Q is linear with zero initial value, so the last 24 message bits map bijectively onto the trailer)."""
+    if not _STEER:
+        rows = []  # (image, preimage) of the 24 unit vectors
+        for i in range(24):
+            t = 1 << i
+            rows.append([refcrc.crc_ref2(t.to_bytes(3, "big")), t])
+        # Gauss-Jordan over GF(2): express every unit image
+        inv = {}
+        basis = []
+        for img, pre in rows:
+            for bimg, bpre in basis:
+                if img ^ bimg < img:
+                    img ^= bimg
+                    pre ^= bpre
+            if img:
+                basis.append((img, pre))
+                basis.sort(reverse=True)
+        _STEER["basis"] = basis
+    n = len(prefix) + 3
+    hdr = b"\xd3" + n.to_bytes(2, "big")
+    want = refcrc.crc_ref2(hdr + prefix + b"\x00\x00\x00") ^ target
+    t = 0
+    for bimg, bpre in _STEER["basis"]:
+        if want ^ bimg < want:
+            want ^= bimg
+            t ^= bpre
+    if want:
+        raise RuntimeError("steering failed")
+    out = prefix + t.to_bytes(3, "big")
+    assert refcrc.frame(out)[-3:] == target.to_bytes(3, "big")
+    return out
+
+
+STEER_TARGETS = (0x000000, 0xFFFFFF, 0x000001, 0x00FFFF, 0x0000FF, 0x0A0D0A, 0x550D0A, 0x12340A, 0x12340D, 0x0D0A00,
+                 0xD30000, 0x00D300, 0x1234D3, 0x123424, 0x1234B5, 0xB56200, 0x244700, 0x252525, 0x7B7D25, 0x5C2722,
+                 0x800000, 0x0FFFFF, 0x100000)
